@@ -139,6 +139,9 @@ func genC01(tier string, seed uint64, idx int) *simkit.Plan {
 			p.Add(simkit.St("rw", rng.Uint64()))
 		case x < 13:
 			p.Add(simkit.St("restart", rng.Uint64()))
+		case x >= 94 && wrongCookies:
+			// a read and a delete presenting another cookie, through the volume server's HTTP handler
+			p.Add(simkit.St("wc", rng.Uint64(), "key", 1+rng.Intn(keys), "cookie", 0x7000+rng.Intn(3)))
 		case x < 17 && faults:
 			p.Add(simkit.St("fault", rng.Uint64(), "kind", []string{"eio", "enospc", "short", "sync", "trunc"}[rng.Intn(5)]))
 			// a fault is only interesting inside an operation that creates in-flight state
